@@ -77,6 +77,15 @@ def check_tree(data: dict, lab: Labels) -> None:
         _check_orphan(data, lab)
 
 
+def E_world_origin(c: Any) -> Any:
+    """another origin than the node's (same source, another range)"""
+    from pyoak.origin import CodeOrigin, MemoryTextSource, get_code_range
+
+    src = MemoryTextSource("0123456789abcdef", source_uri="mem://c20-other")
+    k = 1 + (len(str(c.origin)) % 5)
+    return CodeOrigin(source=src, position=get_code_range(k, 1, k, k + 2, 1, k + 2))
+
+
 def _check_orphan(data: dict, lab: Labels) -> None:
     """a subtree that outlives its root: once the last reference to the former root is gone the kept
     node is an attached root (its parent id resolves to nothing) and everything said about attached
@@ -321,7 +330,7 @@ def _check_tree(data: dict, lab: Labels) -> None:
         if not deep:
             break
         c, fn, i, p = deep[sel % len(deep)]
-        how = (sel // 7) % 3
+        how = (sel // 7) % 4
         if type(p).__name__ == "LDyn":
             how = 2  # (replace_with needs static type info of the parent's field: none for LDyn)
         try:
@@ -333,6 +342,13 @@ def _check_tree(data: dict, lab: Labels) -> None:
                 elif how == 1:
                     c.replace_with(L.cls("LLeaf")(v=4, origin=c.origin))
                     lab.tag("recalc-after-replace_with")
+                elif how == 3:
+                    # the new node has the content of the old one (only its origin differs): content ids above
+                    # it stay as they are, the tree nevertheless holds another object now
+                    list(root.dfs())
+                    list(p.dfs())
+                    c.replace(origin=E_world_origin(c))
+                    lab.tag("recalc-after-content-preserving-replace")
                 else:
                     c.replace(origin=c.origin) if type(c).__name__ == "LLeafB" else c.replace(v=(int(c.v) + 1) % 5)
                     lab.tag("recalc-after-replace")
@@ -347,6 +363,14 @@ def _check_tree(data: dict, lab: Labels) -> None:
                 walk(k, prefix + f"/@{kfn}[{0 if ki is None else ki}]{type(k).__name__}")
 
         walk(root, f"/@root[0]{type(root).__name__}")
+        # the walkers see the tree as it is now (the very objects it holds)
+        now = E.subtree(root)
+        for nm, got_w in (("dfs", list(root.dfs())), ("bfs", list(root.bfs())), ("dfs-bottom-up", list(root.dfs(bottom_up=True)))):
+            require(len(got_w) == len(now) and {id(x) for x in got_w} == {id(x) for x in now}, f"legacy-{nm}-sequence",
+                    f"round {round_no + 2}: after a change the walk yields objects the tree no longer holds "
+                    f"({sum(1 for x in got_w if x.detached)} detached)")
+        pre = list(root.dfs())
+        require(all(a is b_ for a, b_ in zip(pre, now)), "legacy-dfs-sequence", f"round {round_no + 2}: pre-order after a change")
     lab.nontrivial = nt and depth >= 3
     del live_idx
 
